@@ -804,6 +804,90 @@ def locks_at(model: Model, func: str, line: int) -> Set[str]:
     return held
 
 
+def _may_raise(model: Model, fq: str, depth: int = 3, seen: Optional[Set[str]] = None) -> bool:
+    """the function (or something it calls, a few levels down) contains an explicit `raise`"""
+    seen = seen if seen is not None else set()
+    if fq in seen or depth < 0:
+        return False
+    seen.add(fq)
+    fi = model.funcs.get(fq)
+    if fi is None:
+        return False
+    if any(isinstance(n, ast.Raise) for n in ast.walk(fi.node)):
+        return True
+    params = {a.arg for a in fi.node.args.args + fi.node.args.kwonlyargs if a.arg not in ("self", "cls")}
+    for n in ast.walk(fi.node):
+        # unpacking or indexing an argument raises for an argument of the wrong shape (a 3-D position, None, ...)
+        if isinstance(n, ast.Assign) and isinstance(n.targets[0], (ast.Tuple, ast.List)) and isinstance(n.value, ast.Name) and n.value.id in params:
+            return True
+        if isinstance(n, ast.Subscript) and isinstance(n.value, ast.Name) and n.value.id in params and isinstance(n.ctx, ast.Load):
+            return True
+    return any(_may_raise(model, c, depth - 1, seen) for cs in model.calls.get(fq, []) for c in cs.callees)
+
+
+def changed_and_restored_without_finally(model: Model, func: str) -> Optional[str]:
+    """`global NAME` is changed, something that can raise runs (a `yield` of a context manager, a call of a function with a
+    reachable `raise`), and NAME is put back afterwards -- with no try/finally around it: when the exception happens, NAME keeps
+    the changed value for every later call.  Returns a description or None."""
+    fi = model.funcs.get(func)
+    if fi is None or fi.is_module_body:
+        return None
+    fn = fi.node
+    globs = {nm for n in ast.walk(fn) if isinstance(n, ast.Global) for nm in n.names}
+    if not globs:
+        return None
+
+    def writes(st: ast.stmt) -> Set[str]:
+        out: Set[str] = set()
+        if isinstance(st, ast.Assign):
+            for t in st.targets:
+                for x in ast.walk(t):
+                    if isinstance(x, ast.Name) and isinstance(x.ctx, ast.Store) and x.id in globs:
+                        out.add(x.id)
+        elif isinstance(st, ast.AugAssign) and isinstance(st.target, ast.Name) and st.target.id in globs:
+            out.add(st.target.id)
+        return out
+
+    def risky(st: ast.stmt) -> Optional[str]:
+        for n in ast.walk(st):
+            if isinstance(n, (ast.Yield, ast.YieldFrom)):
+                return "the `yield` (the body of the with-statement runs there)"
+            if isinstance(n, ast.Call):
+                for cs in model.calls.get(func, []):
+                    if cs.node is n and any(_may_raise(model, c) for c in cs.callees):
+                        return f"`{core.src(n)[:50]}` (its call tree contains a raise)"
+        return None
+    # look at every statement list of the function; a try/finally that holds the restoring write protects it
+    blocks: List[Tuple[List[ast.stmt], bool]] = [(fn.body, False)]
+    for n in ast.walk(fn):
+        if isinstance(n, ast.Try):
+            guarded = bool(n.finalbody)
+            blocks.append((n.body, guarded))
+            blocks.append((n.finalbody, False))
+            for h in n.handlers:
+                blocks.append((h.body, False))
+            blocks.append((n.orelse, False))
+        elif isinstance(n, (ast.If, ast.For, ast.While, ast.With)) and n is not fn:
+            blocks.append((n.body, False))
+            if getattr(n, "orelse", None):
+                blocks.append((n.orelse, False))
+    for body, guarded in blocks:
+        if guarded:
+            continue
+        for i, st in enumerate(body):
+            for nm in writes(st):
+                for j in range(i + 1, len(body)):
+                    if nm in writes(body[j]):
+                        why = None
+                        for k in range(i + 1, j):
+                            why = why or risky(body[k])
+                        if why:
+                            return (f"`{core.src(st)[:50]}` (line {st.lineno}) changes {nm}, `{core.src(body[j])[:50]}` (line {body[j].lineno}) puts it back, "
+                                    f"and in between {why} can raise; there is no try/finally, so after an exception {nm} keeps the changed value")
+                        break
+    return None
+
+
 def generic_setter(model: Model, func: str, key_vars: Set[str], extra: Set[str]) -> bool:
     """`def store(self, key, value): self.entries[key] = value`: the key and what the value depends on are both parameters of the
     storing function, so whether the key determines the value is a property of its call sites, not of this function"""
